@@ -66,7 +66,7 @@ theorem c30_floor_respected {s : GState} (h : Reach s) :
   · intro i ti v hi ki ri f hf
     have a := ((I.thr i ti hi).nxr ki _ ri)
     simp only [Ret.id.injEq] at a
-    exact ((I.thr i ti hi).casd v (a.1 ▸ a.2)).2.2 f hf
+    exact ((I.thr i ti hi).casd v (a.1 ▸ a.2)).2.2.1 f hf
   · intro k tk hk kk rk
     exact (I.thr k tk hk).sfOk kk rk
 
@@ -96,6 +96,271 @@ theorem c30_later_cas_above {s s' : GState} (h : Reach s) (hs : Step s s') :
       exact ⟨hlt, fun f hf => Nat.lt_of_le_of_lt (I.acksLe f hf) hlt,
         fun x hx => Nat.lt_of_le_of_lt (I.histLe x hx) hlt⟩
 
+/-! ### real-time order: start and return of calls -/
+
+theorem wr_ghost (t : Thread) (i v : Nat) :
+    (t.wr i v).kind = t.kind ∧ (t.wr i v).histAtStart = t.histAtStart ∧ (t.wr i v).acksAtStart = t.acksAtStart ∧
+    (t.wr i v).retsAtStart = t.retsAtStart := by
+  unfold Thread.wr; split <;> simp
+
+/-- executing an instruction never touches the kind or the start snapshots of a call -/
+theorem exec_ghost {prog : List Instr} {F : Nat} {t : Thread} {g fl' : Nat} {t' : Thread} {o : Out}
+    (he : exec prog F t g = some (fl', t', o)) :
+    t'.kind = t.kind ∧ t'.histAtStart = t.histAtStart ∧ t'.acksAtStart = t.acksAtStart ∧ t'.retsAtStart = t.retsAtStart := by
+  unfold exec at he
+  split at he
+  · cases he
+  all_goals first
+    | (simp only [Option.some.injEq, Prod.mk.injEq] at he; obtain ⟨_, rfl, _⟩ := he; first | exact wr_ghost _ _ _ | simp)
+    | (split at he <;> simp only [Option.some.injEq, Prod.mk.injEq] at he <;> (obtain ⟨_, rfl, _⟩ := he; simp))
+
+/-- a call, once started, stays in the thread table with its kind and start snapshots;
+    returned ids and acknowledged floors are never forgotten -/
+theorem step_persist {s s' : GState} (hs : Step s s') :
+    (∀ j t, s.threads j = some t → ∃ t', s'.threads j = some t' ∧ t'.kind = t.kind ∧
+      t'.histAtStart = t.histAtStart ∧ t'.acksAtStart = t.acksAtStart ∧ t'.retsAtStart = t.retsAtStart) ∧
+    (∀ v ∈ s.rets, v ∈ s'.rets) ∧ (∀ f ∈ s.acks, f ∈ s'.acks) := by
+  cases hs with
+  | spawn k kind arg h =>
+    refine ⟨fun j t hj => ?_, fun v hv => hv, fun f hf => hf⟩
+    have : j ≠ k := fun e => by subst e; rw [h] at hj; cases hj
+    exact ⟨t, by simp [upd, this, hj], rfl, rfl, rfl, rfl⟩
+  | run k t g fl' t' o h he =>
+    have hg := exec_ghost he
+    refine ⟨fun j tj hj => ?_, ?_, ?_⟩
+    · by_cases hjk : j = k
+      · subst hjk
+        rw [h] at hj; cases hj
+        cases o with
+        | none => exact ⟨t', by simp [commit, upd], hg⟩
+        | cas v => exact ⟨{ t' with casd := some v, histAtCas := s.hist, acksAtCas := s.acks }, by simp [commit, upd], hg⟩
+        | ret r => exact ⟨{ t' with ret := some r }, by simp [commit, upd], hg⟩
+      · refine ⟨tj, ?_, rfl, rfl, rfl, rfl⟩
+        cases o <;> simp [commit, upd, hjk, hj]
+    · intro v hv
+      cases o with
+      | none => exact hv
+      | cas _ => exact hv
+      | ret r => cases r <;> simp [commit, hv]
+    · intro f hf
+      cases o with
+      | none => exact hf
+      | cas _ => exact hf
+      | ret r =>
+        simp only [commit]
+        split
+        · exact List.mem_cons_of_mem _ hf
+        · exact hf
+
+inductive Steps : GState → GState → Prop
+  | refl (s : GState) : Steps s s
+  | tail {a b c : GState} : Steps a b → Step b c → Steps a c
+
+theorem reach_steps {s s' : GState} (h : Reach s) (hs : Steps s s') : Reach s' := by
+  induction hs with
+  | refl => exact h
+  | tail _ st ih => exact Reach.step ih st
+
+theorem steps_persist {s s' : GState} (hs : Steps s s') :
+    (∀ j t, s.threads j = some t → ∃ t', s'.threads j = some t' ∧ t'.kind = t.kind ∧
+      t'.histAtStart = t.histAtStart ∧ t'.acksAtStart = t.acksAtStart ∧ t'.retsAtStart = t.retsAtStart) ∧
+    (∀ v ∈ s.rets, v ∈ s'.rets) ∧ (∀ f ∈ s.acks, f ∈ s'.acks) := by
+  induction hs with
+  | refl => exact ⟨fun j t hj => ⟨t, hj, rfl, rfl, rfl, rfl⟩, fun _ h => h, fun _ h => h⟩
+  | tail _ st ih =>
+    obtain ⟨a, b, c⟩ := ih
+    obtain ⟨a', b', c'⟩ := step_persist st
+    refine ⟨fun j t hj => ?_, fun v hv => b' v (b v hv), fun f hf => c' f (c f hf)⟩
+    obtain ⟨t1, h1, e1, e2, e3, e4⟩ := a j t hj
+    obtain ⟨t2, h2, f1, f2, f3, f4⟩ := a' j t1 h1
+    exact ⟨t2, h2, f1.trans e1, f2.trans e2, f3.trans e3, f4.trans e4⟩
+
+/-- the state right after call `j` of the given kind starts in `s` -/
+def startCall (s : GState) (j : Nat) (kind : Kind) (arg : Nat) : GState :=
+  { s with threads := upd s.threads j (spawnThread kind arg s) }
+
+/-- **real-time order**: if call A (any thread `i`) has RETURNED id `v` in state `s1`, and call B
+    (Next, thread `j`) STARTS in a later state `s2`, then whatever B returns is larger. -/
+theorem c30_realtime_increasing {s1 s2 s3 : GState} {i j : Nat} {ti tj : Thread} {v w : Nat}
+    (h1 : Reach s1) (hA : s1.threads i = some ti) (rA : ti.ret = some (.id v))
+    (h12 : Steps s1 s2) (hfree : s2.threads j = none)
+    (h23 : Steps (startCall s2 j .next 0) s3)
+    (hB : s3.threads j = some tj) (rB : tj.ret = some (.id w)) : v < w := by
+  have I1 := inv_reach h1
+  have hv2 : v ∈ s2.rets := (steps_persist h12).2.1 v (I1.retRec i ti v hA rA)
+  have h2 : Reach s2 := reach_steps h1 h12
+  have h2' : Reach (startCall s2 j .next 0) := Reach.step h2 (Step.spawn s2 j .next 0 hfree)
+  have I3 := inv_reach (reach_steps h2' h23)
+  obtain ⟨t3, ht3, hk, _, _, hr⟩ := (steps_persist h23).1 j (spawnThread .next 0 s2) (by simp [startCall, upd])
+  rw [hB] at ht3; cases ht3
+  have hkind : tj.kind = .next := hk
+  have hrs : tj.retsAtStart = s2.rets := hr
+  have T := I3.thr j tj hB
+  have a := T.nxr hkind _ rB
+  simp only [Ret.id.injEq] at a
+  have c := T.casd w (a.1 ▸ a.2)
+  exact c.2.2.2.1 v (T.startRets v (hrs ▸ hv2))
+
+/-- **floor in real time**: if `SetFloor(f)` has RETURNED nil in `s1` and a Next call starts later,
+    the id it returns is above `f`. -/
+theorem c30_floor_realtime {s1 s2 s3 : GState} {k j : Nat} {tk tj : Thread} {w : Nat}
+    (h1 : Reach s1) (hA : s1.threads k = some tk) (kA : tk.kind = .setFloor) (rA : tk.ret = some .ok)
+    (h12 : Steps s1 s2) (hfree : s2.threads j = none)
+    (h23 : Steps (startCall s2 j .next 0) s3)
+    (hB : s3.threads j = some tj) (rB : tj.ret = some (.id w)) : tk.r0 < w := by
+  have I1 := inv_reach h1
+  have hv2 : tk.r0 ∈ s2.acks := (steps_persist h12).2.2 _ (I1.ackRec k tk hA kA rA)
+  have h2 : Reach s2 := reach_steps h1 h12
+  have h2' : Reach (startCall s2 j .next 0) := Reach.step h2 (Step.spawn s2 j .next 0 hfree)
+  have I3 := inv_reach (reach_steps h2' h23)
+  obtain ⟨t3, ht3, hk, _, ha, _⟩ := (steps_persist h23).1 j (spawnThread .next 0 s2) (by simp [startCall, upd])
+  rw [hB] at ht3; cases ht3
+  have hkind : tj.kind = .next := hk
+  have has : tj.acksAtStart = s2.acks := ha
+  have T := I3.thr j tj hB
+  have a := T.nxr hkind _ rB
+  simp only [Ret.id.injEq] at a
+  have c := T.casd w (a.1 ▸ a.2)
+  exact c.2.2.2.2 _ (has ▸ hv2)
+
+/-- SetFloor never overwrites its parameter register, so `tk.r0` above is the floor that was passed -/
+theorem c30_setfloor_arg_const :
+    setFloorProg.all (fun i => match i with | .gen 0 | .load 0 => false | _ => true) = true := by decide
+
+
+/-! ### uint64: the model's naturals are Go's uint64 values as long as inputs are -/
+
+/-- 2^64 -/
+def B64 : Nat := 18446744073709551616
+
+def Thread.bounded (t : Thread) : Prop := t.r0 < B64 ∧ t.r1 < B64 ∧ t.r2 < B64
+
+theorem rd_bounded {t : Thread} (h : t.bounded) (i : Nat) : t.rd i < B64 := by
+  unfold Thread.rd; split
+  · exact h.1
+  · exact h.2.1
+  · exact h.2.2
+
+theorem wr_bounded {t : Thread} (h : t.bounded) (i : Nat) {v : Nat} (hv : v < B64) : (t.wr i v).bounded := by
+  unfold Thread.wr; split
+  · exact ⟨hv, h.2.1, h.2.2⟩
+  · exact ⟨h.1, hv, h.2.2⟩
+  · exact ⟨h.1, h.2.1, hv⟩
+
+/-- the loops do NO arithmetic: an instruction only moves values between the generator, the
+    registers and the shared word, so nothing can wrap -/
+theorem exec_bounded {prog : List Instr} {F : Nat} {t : Thread} {g fl' : Nat} {t' : Thread} {o : Out}
+    (hF : F < B64) (ht : t.bounded) (hg : g < B64) (he : exec prog F t g = some (fl', t', o)) :
+    fl' < B64 ∧ t'.bounded ∧ (∀ v, o = .cas v → v < B64) ∧ (∀ v, o = .ret (.id v) → v < B64) := by
+  unfold exec at he
+  split at he
+  · cases he
+  · simp only [Option.some.injEq, Prod.mk.injEq] at he; obtain ⟨rfl, rfl, rfl⟩ := he
+    exact ⟨hF, wr_bounded ht _ hg, by simp, by simp⟩
+  · simp only [Option.some.injEq, Prod.mk.injEq] at he; obtain ⟨rfl, rfl, rfl⟩ := he
+    exact ⟨hF, wr_bounded ht _ hF, by simp, by simp⟩
+  · split at he <;> simp only [Option.some.injEq, Prod.mk.injEq] at he <;> (obtain ⟨rfl, rfl, rfl⟩ := he) <;>
+      exact ⟨hF, ht, by simp, by simp⟩
+  · split at he <;> simp only [Option.some.injEq, Prod.mk.injEq] at he <;> (obtain ⟨rfl, rfl, rfl⟩ := he)
+    · exact ⟨rd_bounded ht _, ht, fun v hv => by simp only [Out.cas.injEq] at hv; subst hv; exact rd_bounded ht _, by simp⟩
+    · exact ⟨hF, ht, by simp, by simp⟩
+  · simp only [Option.some.injEq, Prod.mk.injEq] at he; obtain ⟨rfl, rfl, rfl⟩ := he
+    exact ⟨hF, ht, by simp, by simp⟩
+  · simp only [Option.some.injEq, Prod.mk.injEq] at he; obtain ⟨rfl, rfl, rfl⟩ := he
+    exact ⟨hF, ht, by simp, fun v hv => by simp only [Out.ret.injEq, Ret.id.injEq] at hv; subst hv; exact rd_bounded ht _⟩
+  · simp only [Option.some.injEq, Prod.mk.injEq] at he; obtain ⟨rfl, rfl, rfl⟩ := he
+    exact ⟨hF, ht, by simp, by simp⟩
+  · simp only [Option.some.injEq, Prod.mk.injEq] at he; obtain ⟨rfl, rfl, rfl⟩ := he
+    exact ⟨hF, ht, by simp, by simp⟩
+
+/-- reachability when every generator value and every SetFloor argument is a uint64 -/
+inductive ReachB : GState → Prop
+  | init : ReachB init
+  | spawn {s : GState} (h : ReachB s) (k : Nat) (kind : Kind) (arg : Nat) (hfree : s.threads k = none)
+      (harg : arg < B64) : ReachB (startCall s k kind arg)
+  | run {s : GState} (h : ReachB s) (k : Nat) (t : Thread) (g fl' : Nat) (t' : Thread) (o : Out)
+      (hk : s.threads k = some t) (he : exec (progOf t.kind) s.floor t g = some (fl', t', o))
+      (hg : g < B64) : ReachB (commit s k fl' t' o)
+
+theorem reachB_reach {s : GState} (h : ReachB s) : Reach s := by
+  induction h with
+  | init => exact Reach.init
+  | spawn _ k kind arg hfree _ ih => exact Reach.step ih (Step.spawn _ k kind arg hfree)
+  | run _ k t g fl' t' o hk he _ ih => exact Reach.step ih (Step.run _ k t g fl' t' o hk he)
+
+/-- **no wrap-around**: with uint64 inputs, the shared floor, every register, every CASed value and
+    every returned id is a uint64 — the `Nat` model and the Go code compute the same values -/
+theorem c30_u64_closed {s : GState} (h : ReachB s) :
+    s.floor < B64 ∧ (∀ x ∈ s.hist, x < B64) ∧ (∀ v ∈ s.rets, v < B64) ∧
+    (∀ k t, s.threads k = some t → t.bounded) := by
+  induction h with
+  | init =>
+    refine ⟨by decide, ?_, ?_, ?_⟩
+    · intro x hx; cases hx
+    · intro x hx; cases hx
+    · intro k t hk; simp [init] at hk
+  | spawn _ k kind arg hfree harg ih =>
+    obtain ⟨a, b, c, d⟩ := ih
+    refine ⟨a, b, c, fun j t hj => ?_⟩
+    by_cases hjk : j = k
+    · subst hjk
+      simp only [startCall, upd_same, Option.some.injEq] at hj
+      subst hj
+      cases kind
+      · exact ⟨by simp [spawnThread, B64], by simp [spawnThread, B64], by simp [spawnThread, B64]⟩
+      · exact ⟨by simpa [spawnThread] using harg, by simp [spawnThread, B64], by simp [spawnThread, B64]⟩
+    · simp only [startCall] at hj
+      rw [upd_other _ _ _ hjk] at hj
+      exact d j t hj
+  | @run s0 _ k t g fl' t' o hk he hg ih =>
+    obtain ⟨a, b, c, d⟩ := ih
+    obtain ⟨e1, e2, e3, e4⟩ := exec_bounded a (d k t hk) hg he
+    have thr : ∀ (t'' : Thread), t''.bounded → ∀ j tj, upd s0.threads k t'' j = some tj → tj.bounded := by
+      intro t'' hb j tj hj
+      by_cases hjk : j = k
+      · subst hjk; simp only [upd_same, Option.some.injEq] at hj; subst hj; exact hb
+      · rw [upd_other _ _ _ hjk] at hj; exact d j tj hj
+    cases o with
+    | none => exact ⟨e1, b, c, thr t' e2⟩
+    | cas v =>
+      refine ⟨e1, fun x hx => ?_, c, thr _ e2⟩
+      rcases List.mem_cons.mp hx with h | h
+      · subst h; exact e3 _ rfl
+      · exact b x h
+    | ret r =>
+      refine ⟨e1, b, fun x hx => ?_, thr _ e2⟩
+      cases r with
+      | id w =>
+        rcases List.mem_cons.mp hx with h | h
+        · subst h; exact e4 _ rfl
+        · exact c x h
+      | ok => exact c x hx
+      | err => exact c x hx
+
+/-- **at MaxUint64**: once the floor is 2^64-1 (a generator that delivered uint64(int64(-1)), say),
+    no CAS can succeed any more — Next spins and no further id is issued; safety is kept, only
+    progress is lost -/
+theorem c30_no_id_after_max {s : GState} (h : ReachB s) (hmax : s.floor = B64 - 1)
+    {k : Nat} {t : Thread} {g fl' : Nat} {t' : Thread} {o : Out}
+    (hk : s.threads k = some t) (he : exec (progOf t.kind) s.floor t g = some (fl', t', o)) (hg : g < B64) :
+    (∀ v, o ≠ .cas v) ∧ (commit s k fl' t' o).hist = s.hist ∧ (commit s k fl' t' o).floor = s.floor := by
+  have hb := (c30_u64_closed (ReachB.run h k t g fl' t' o hk he hg)).1
+  have I := inv_reach (reachB_reach h)
+  have hno : ∀ v, o ≠ .cas v := by
+    intro v hv
+    subst hv
+    obtain ⟨rfl, hlt⟩ := cas_above (I.thr k t hk) he
+    simp only [commit] at hb
+    unfold B64 at hb hmax
+    omega
+  refine ⟨hno, ?_, ?_⟩
+  · cases o with
+    | none => rfl
+    | ret r => rfl
+    | cas v => exact absurd rfl (hno v)
+  · have := exec_floor_same he hno
+    cases o <;> simp [commit, this]
+
 /-! ### an executable scheduler over the same transitions (non-vacuity, and why `<=` matters) -/
 
 inductive Cmd | spawn (k : Nat) (kind : Kind) (arg : Nat) | run (k : Nat) (g : Nat)
@@ -103,7 +368,7 @@ inductive Cmd | spawn (k : Nat) (kind : Kind) (arg : Nat) | run (k : Nat) (g : N
 def applyCmdP (progs : Kind → List Instr) (s : GState) : Cmd → GState
   | .spawn k kind arg =>
     match s.threads k with
-    | none => { s with threads := upd s.threads k (spawnThread kind arg) }
+    | none => { s with threads := upd s.threads k (spawnThread kind arg s) }
     | some _ => s
   | .run k g =>
     match s.threads k with
@@ -160,6 +425,49 @@ example : ∃ ti tj, demoState.threads 0 = some ti ∧ demoState.threads 1 = som
   refine ⟨_, _, rfl, rfl, ?_⟩
   decide
 example : demoState.hist.Pairwise (· > ·) := (c30_cas_increasing demo_reach).1
+
+
+-- c30_realtime_increasing / c30_floor_realtime: in `demo`, thread 0 returned 5 and SetFloor 7 returned nil
+-- before a NEW call (thread 3) starts; it is handed raw id 6 first (must skip it) and then 11
+def demo2 : List Cmd := [.run 3 6, .run 3 0, .run 3 0, .run 3 0, .run 3 11, .run 3 0, .run 3 0, .run 3 0, .run 3 0]
+theorem steps_trans {a b c : GState} (h1 : Steps a b) (h2 : Steps b c) : Steps a c := by
+  induction h2 with
+  | refl => exact h1
+  | tail _ st ih => exact Steps.tail ih st
+theorem steps_run {s : GState} (cs : List Cmd) : Steps s (cs.foldl (applyCmdP progOf) s) := by
+  induction cs generalizing s with
+  | nil => exact Steps.refl s
+  | cons c cs ih =>
+    have h1 : Steps s (applyCmdP progOf s c) := by
+      cases c with
+      | spawn k kind arg =>
+        simp only [applyCmdP]
+        split
+        · rename_i hn; exact Steps.tail (Steps.refl s) (Step.spawn s k kind arg hn)
+        · exact Steps.refl s
+      | run k g =>
+        simp only [applyCmdP]
+        split
+        · exact Steps.refl s
+        · rename_i t ht
+          split
+          · exact Steps.refl s
+          · rename_i fl' t' o he
+            exact Steps.tail (Steps.refl s) (Step.run s k t g fl' t' o ht he)
+    exact steps_trans h1 ih
+def demoState3 : GState := demo2.foldl (applyCmdP progOf) (startCall demoState 3 .next 0)
+example : retOf demoState3 3 = some (.id 11) := by decide
+example : ∃ tj, demoState3.threads 3 = some tj ∧ tj.ret = some (.id 11) ∧ 5 < 11 ∧ 7 < 11 := by
+  refine ⟨_, rfl, ?_⟩
+  decide
+example : (5 : Nat) < 11 :=
+  c30_realtime_increasing (s1 := demoState) (s2 := demoState) (s3 := demoState3) (i := 0) (j := 3)
+    demo_reach rfl (by decide) (Steps.refl _) (by decide) (steps_run demo2) rfl (by decide)
+example : (7 : Nat) < 11 :=
+  c30_floor_realtime (s1 := demoState) (s2 := demoState) (s3 := demoState3) (k := 2) (j := 3)
+    demo_reach rfl (by decide) (by decide) (Steps.refl _) (by decide) (steps_run demo2) rfl (by decide)
+-- c30_u64_closed / c30_no_id_after_max: a uint64 run that reaches the maximum
+example : ReachB (startCall init 0 .next 0) := ReachB.spawn ReachB.init 0 .next 0 rfl (by decide)
 
 /-- the same schedule against a `<`-for-`<=` Next (what a one-character mutant compiles to):
     the repeated raw id 5 passes the guard, `CAS(5,5)` succeeds and BOTH calls return 5 -/
